@@ -11,22 +11,60 @@ open Mio.Udp
 
 /-- **Identity, exactly once, in order.**  For every socket, the datagrams reported so far (as
 `(source address in the endpoint, payload)`) followed by those still queued are exactly the datagrams
-that the history of send calls addressed to it — byte for byte, one event per datagram, in order, for
-every payload size the send path admits (0 included). -/
-theorem delivered_exactly_once_unmodified (w : World) (h : Reachable w) (j : Nat) (s : Sock)
+that the history of send calls addressed to it — one event per datagram, in order — each passed through
+`cutK` (= `recv` into the reader's buffer: the adapter's `MAX_LOCAL_PAYLOAD_LEN` bytes for a library
+socket) … -/
+theorem delivered_exactly_once (w : World) (h : Reachable w) (j : Nat) (s : Sock)
     (hj : w.socks[j]? = some s) :
-    s.events.map evDgram ++ s.queue = expected w.log j s.kind := by
+    s.events.map evDgram ++ s.queue.map (cutK s.kind) = (expected w.log j s.kind).map (cutK s.kind) := by
   have hs := (reachable_inv w h).socks j s hj
   rw [hs.split, hs.exp]
+
+/-- … and that changes nothing for any payload size from 0 to the declared maximum: byte-identical,
+never truncated.  (Only a foreign IPv6 socket can produce a longer datagram; that is outside the
+property's range of sizes.) -/
+theorem unmodified_up_to_declared_maximum (k : Kind) (d : Dgram) (h : d.data.length ≤ maxLen) :
+    cutK k d = d := by
+  cases k with
+  | raw => rfl
+  | listener => exact cut_of_small d h
+  | connected p => exact cut_of_small d h
+
+/-- everything the library itself sends is within that range -/
+theorem library_sends_within_maximum (w : World) (h : Reachable w) (r : SendRec) (hr : r ∈ w.log)
+    (hl : r.viaLibrary = true) (hs : r.status = .sent) : r.data.length ≤ maxLen :=
+  (reachable_inv w h).libSmall r hr hl hs
+
+/-- hence, in a world where every sender used the library or kept to the declared maximum, what is
+reported is exactly what was sent -/
+theorem delivered_exactly_once_unmodified (w : World) (h : Reachable w) (j : Nat) (s : Sock)
+    (hj : w.socks[j]? = some s) (hsmall : ∀ r ∈ w.log, r.data.length ≤ maxLen) :
+    s.events.map evDgram ++ s.queue = expected w.log j s.kind := by
+  have hs := (reachable_inv w h).socks j s hj
+  have hexp : ∀ d ∈ expected w.log j s.kind, cutK s.kind d = d := by
+    intro d hd
+    unfold expected at hd
+    obtain ⟨r, hr, hre⟩ := List.mem_map.mp hd
+    have := hsmall r (List.mem_filter.mp hr).1
+    subst hre
+    exact unmodified_up_to_declared_maximum _ _ this
+  have hq : ∀ d ∈ s.queue, cutK s.kind d = d := by
+    intro d hd
+    have := hs.queued d hd
+    rw [hs.exp] at this
+    exact hexp d this
+  have h1 := delivered_exactly_once w h j s hj
+  rw [List.map_congr_left hq, List.map_congr_left hexp, List.map_id', List.map_id'] at h1
+  exact h1
 
 /-- after a readiness event has been processed nothing is left behind: everything sent has been reported -/
 theorem after_poll_everything_reported (w : World) (h : Reachable w) (j : Nat) (s : Sock)
     (hj : (poll w j).socks[j]? = some s) :
-    s.events.map evDgram = expected w.log j s.kind ∧ s.queue = [] := by
+    s.events.map evDgram = (expected w.log j s.kind).map (cutK s.kind) ∧ s.queue = [] := by
   have hr : Reachable (poll w j) := by
-    obtain ⟨acts, rfl⟩ := h
-    exact ⟨acts ++ [.poll j], by simp [run, List.foldl_append, step]⟩
-  have h1 := delivered_exactly_once_unmodified (poll w j) hr j s hj
+    obtain ⟨v6, acts, rfl⟩ := h
+    exact ⟨v6, acts ++ [.poll j], by simp [run, List.foldl_append, step]⟩
+  have h1 := delivered_exactly_once (poll w j) hr j s hj
   have hq : s.queue = [] := by
     unfold poll at hj
     simp only at hj
@@ -37,43 +75,50 @@ theorem after_poll_everything_reported (w : World) (h : Reachable w) (j : Nat) (
       rw [hs0] at hj
       simp only [Option.map_eq_map, Option.map_some, Option.some.injEq, if_true] at hj
       subst hj; rfl
-  rw [hq, List.append_nil] at h1
+  rw [hq, List.map_nil, List.append_nil] at h1
   have hlog : (poll w j).log = w.log := rfl
   rw [hlog] at h1
   exact ⟨h1, hq⟩
 
 /-- **Attribution.**  An event reported by resource `j` carries `j` as its resource id, and its endpoint
 address is the address of a socket that exists and that made a successful send call to `j` with exactly
-this payload. -/
+this payload (as read into the receiver's buffer: the identity up to the declared maximum, see above). -/
 theorem event_attributed_to_its_sender (w : World) (h : Reachable w) (j : Nat) (s : Sock)
     (hj : w.socks[j]? = some s) (e : Ev) (he : e ∈ s.events) :
     e.ep.rid = j ∧ e.ep.addr < w.socks.length ∧
-    ∃ r ∈ w.log, r.dst = j ∧ r.src = e.ep.addr ∧ r.data = e.data ∧ r.status = .sent := by
+    ∃ r ∈ w.log, r.dst = j ∧ r.src = e.ep.addr ∧ (cutK s.kind ⟨r.src, r.data⟩).data = e.data ∧
+      r.status = .sent := by
   have hs := (reachable_inv w h).socks j s hj
-  have hmem : evDgram e ∈ s.accepted := by
+  have hmem : evDgram e ∈ s.accepted.map (cutK s.kind) := by
     rw [← hs.split]
     exact List.mem_append_left _ (List.mem_map_of_mem he)
-  refine ⟨hs.rid e he, hs.srcs _ hmem, ?_⟩
-  rw [hs.exp] at hmem
-  unfold expected at hmem
-  obtain ⟨r, hr, hre⟩ := List.mem_map.mp hmem
+  obtain ⟨d, hd, hde⟩ := List.mem_map.mp hmem
+  have hsrc : d.src = e.ep.addr := by
+    have := congrArg Dgram.src hde; rw [cutK_src] at this; simpa [evDgram] using this
+  have hdat : (cutK s.kind d).data = e.data := by have := congrArg Dgram.data hde; simpa [evDgram] using this
+  refine ⟨hs.rid e he, by rw [← hsrc]; exact hs.srcs _ hd, ?_⟩
+  rw [hs.exp] at hd
+  unfold expected at hd
+  obtain ⟨r, hr, hre⟩ := List.mem_map.mp hd
   have hf := List.mem_filter.mp hr
   refine ⟨r, hf.1, ?_⟩
   have hc := hf.2
   simp only [Bool.and_eq_true, decide_eq_true_eq] at hc
-  have h1 : r.src = e.ep.addr := by have := congrArg Dgram.src hre; simpa [evDgram] using this
-  have h2 : r.data = e.data := by have := congrArg Dgram.data hre; simpa [evDgram] using this
-  exact ⟨hc.1.1.1, h1, h2, hc.1.1.2⟩
+  have h1 : r.src = d.src := by have := congrArg Dgram.src hre; simpa using this
+  have h2 : r.data = d.data := by have := congrArg Dgram.data hre; simpa using this
+  refine ⟨hc.1.1.1, by rw [h1, hsrc], ?_, hc.1.1.2⟩
+  rw [← hdat, h1, h2]
 
 /-- a connected socket reports every datagram under its own endpoint `(id, peer address)` -/
 theorem connected_reports_peer (w : World) (h : Reachable w) (j p : Nat) (s : Sock)
     (hj : w.socks[j]? = some s) (hk : s.kind = .connected p) (e : Ev) (he : e ∈ s.events) :
     e.ep = ⟨j, p⟩ := by
   have hs := (reachable_inv w h).socks j s hj
-  have hmem : evDgram e ∈ s.accepted := by
+  have hmem : evDgram e ∈ s.accepted.map (cutK s.kind) := by
     rw [← hs.split]
     exact List.mem_append_left _ (List.mem_map_of_mem he)
-  have h1 := hs.peer p hk _ hmem
+  obtain ⟨d, hd, hde⟩ := List.mem_map.mp hmem
+  have h1 : (evDgram e).src = p := by rw [← hde, cutK_src]; exact hs.peer p hk d hd
   have h2 := hs.rid e he
   cases e with
   | mk ep data => cases ep with
@@ -82,13 +127,13 @@ theorem connected_reports_peer (w : World) (h : Reachable w) (j p : Nat) (s : So
 /-- **Reply path.**  Sending from listener `j` to the address `a` (the endpoint reported in an event, or
 one built with `from_listener`) hands the kernel a datagram from `j` for the socket bound at `a`: if
 that socket takes datagrams from `j`, exactly this datagram is appended to its queue. -/
-theorem reply_reaches_address (w : World) (j a : Nat) (s t : Sock) (data : Bytes)
+theorem reply_reaches_address (w : World) (hkm : maxLen ≤ w.kmax) (j a : Nat) (s t : Sock) (data : Bytes)
     (hj : w.socks[j]? = some s) (hk : s.kind = .listener) (ha : w.socks[a]? = some t)
     (hacc : kAccepts t.kind j = true) (hlen : data.length ≤ maxLen) :
     (send w ⟨j, a⟩ data).2 = .sent ∧
     ∃ t', (send w ⟨j, a⟩ data).1.socks[a]? = some t' ∧ t'.kind = t.kind ∧
       t'.queue = t.queue ++ [⟨j, data⟩] ∧ t'.events = t.events := by
-  have hk' : ¬ data.length > kMax := by have := maxLen_le; omega
+  have hk' : ¬ data.length > w.kmax := by omega
   have hl : ¬ data.length > maxLen := by omega
   unfold send
   simp only [hj, hk, record, sendPacket, hl, if_false, kSend, hk']
@@ -117,12 +162,12 @@ theorem from_listener_spec (w : World) (id addr : Nat) (ep : Endpoint) :
 
 /-- **Sizes.**  A send on a library socket is refused with `MaxPacketSizeExceeded` exactly above the
 declared maximum, and then nothing is transmitted; at or below it (zero included) it is `Sent`. -/
-theorem size_status (w : World) (ep : Endpoint) (s : Sock) (data : Bytes) (hs : w.socks[ep.rid]? = some s)
-    (hk : s.kind ≠ .raw) :
+theorem size_status (w : World) (hkm : maxLen ≤ w.kmax) (ep : Endpoint) (s : Sock) (data : Bytes)
+    (hs : w.socks[ep.rid]? = some s) (hk : s.kind ≠ .raw) :
     ((send w ep data).2 = .maxPacketSizeExceeded ↔ data.length > maxLen) ∧
     ((send w ep data).2 = .sent ↔ data.length ≤ maxLen) ∧
     (data.length > maxLen → (send w ep data).1.socks = w.socks) := by
-  have hm := maxLen_le
+  have hm := hkm
   unfold send
   simp only [hs]
   cases hkind : s.kind with
@@ -130,13 +175,13 @@ theorem size_status (w : World) (ep : Endpoint) (s : Sock) (data : Bytes) (hs : 
   | listener =>
     by_cases hl : data.length > maxLen
     · simp [record, sendPacket, hl]
-    · have hk' : ¬ data.length > kMax := by omega
+    · have hk' : ¬ data.length > w.kmax := by omega
       simp [record, sendPacket, hl, kSend, hk']
       omega
   | connected p =>
     by_cases hl : data.length > maxLen
     · simp [record, sendPacket, hl]
-    · have hk' : ¬ data.length > kMax := by omega
+    · have hk' : ¬ data.length > w.kmax := by omega
       simp [record, sendPacket, hl, kSend, hk']
       omega
 
@@ -145,8 +190,13 @@ theorem declared_maximum :
     (Mio.Generated.transports.find? (fun r => r.name = "Udp")).map (·.maxMessageSize) = some maxLen := by
   decide
 
-/-- the receive buffer is large enough for every datagram the kernel can hold: nothing is cut -/
-theorem buffer_holds_any_datagram : kMax ≤ bufLen := bufLen_ge
+/-- the receive buffer holds every datagram up to the declared maximum, and every IPv4 datagram -/
+theorem buffer_holds_any_datagram : maxLen ≤ bufLen ∧ kMax4 ≤ bufLen := by decide
+
+/-- the hypothesis `maxLen ≤ w.kmax` of the two theorems above holds in every reachable world (both
+address families) -/
+theorem kernel_admits_declared_maximum (w : World) (h : Reachable w) : maxLen ≤ w.kmax :=
+  (reachable_inv w h).kmaxGe
 
 /-! Non-vacuity: a listener (0), two foreign senders (1, 2) and a connected library socket (3 → 0).
 Sender 1 sends `[7]` and the empty datagram, sender 2 sends `[9]`, socket 3 sends `[5]`; after the
@@ -157,7 +207,7 @@ def exActs : List Act :=
    .rawSend 1 0 [7], .rawSend 2 0 [9], .rawSend 1 0 [], .send ⟨3, 99⟩ [5], .poll 0,
    .send ⟨0, 3⟩ [1, 2], .rawSend 1 3 [8], .poll 3]
 
-example : ((run {} exActs).socks.map (·.events)) =
+example : ((run (init false) exActs).socks.map (·.events)) =
     [[⟨⟨0, 1⟩, [7]⟩, ⟨⟨0, 2⟩, [9]⟩, ⟨⟨0, 1⟩, []⟩, ⟨⟨0, 3⟩, [5]⟩], [], [], [⟨⟨3, 0⟩, [1, 2]⟩]] := by
   decide
 
